@@ -81,6 +81,7 @@ def explore_config(case):
                           case, "config", firsts=["exp", "inverse", "square", "neg", "log"], seconds=["Ad", "ad"])
     numapi.check_aliasing(res, B, [e["p"] for e in alpha.reduced(elems, 12 if not is_dp else 8)], [x["p"] for x in alpha.reduced(xs, 12 if not is_dp else 8)], case, "config", ("Ad", "ad"))
     numapi.check_symbol_names(res, B, [e["p"] for e in alpha.reduced(elems, 6)], [x["p"] for x in alpha.reduced(xs, 6)], case, "config", ("Ad", "ad", "bracket"))
+    numapi.check_history(res, B, [e["p"] for e in alpha.reduced(elems, 8)], [x["p"] for x in alpha.reduced(xs, 8)], case, "config", ["Ad", "ad"], ["to_Matrix", "inverse", "wedge", "exp"])
     numapi.check_threads(res, B, numapi.generic_pair([e["p"] for e in elems]), numapi.generic_pair([x["p"] for x in xs]), case, "config", ("Ad", "ad"))
     if is_dp:
         gutil.check_product_by_position(res, B, [e["p"] for e in alpha.reduced(elems, 8)], [x["p"] for x in alpha.reduced(xs, 8)], case, "config", ("Ad", "ad"))
